@@ -1,10 +1,17 @@
 """Which machinery decides which property."""
 import ms_checks
+import sieve_checks
 
 MS_COQ = ["ms/Driver.vo"]
+SV_COQ = ["sieve/Printer.vo", "gen/GenTables.vo"]
 
 def _ms(run, technique, text, note="Kernel + extraction + correspondence check; CPython re/bytes builtins modelled in coq/lib/Bytes.v; the reference server (coq/ms/Server.v) stands for real servers."):
     return {"level": "proof", "coq": MS_COQ, "drivers": ["ms"], "run": run, "technique": technique,
+            "level_text": text, "level_note": note}
+
+
+def _sv(run, technique, text, note="Kernel + table translator (tools/gen_tables.py regenerates coq/gen/GenTables.v from sievelib/commands.py and parser.py on every run) + extraction + correspondence check; CPython re engine and str/bytes builtins modelled by hand-translated scanners (coq/sieve/Lexer.v, coq/lib/Bytes.v); the frozen signatures of harness/sieve_spec.py are the definition of valid."):
+    return {"level": "proof", "coq": SV_COQ, "drivers": ["sieve"], "run": run, "technique": technique,
             "level_text": text, "level_note": note}
 
 
@@ -27,4 +34,14 @@ CHECKS = {
                "Theorems: select_mech returns only mechanisms that are both supported and announced, the preferred one and no other when it is implemented, otherwise the first of DIGEST-MD5, PLAIN, LOGIN, OAUTHBEARER announced; b64_decode (b64_encode x) = Some x; the server-side decoders recover exactly (authzid, login, password) / (login, token). The AUTHENTICATE bytes of the real client are parsed and decoded independently for generated capability sets and unicode credentials."),
     "C17": _ms(ms_checks.check_C17, "Coq model of listing/script decoding + correspondence and direct oracle against the reference server",
                "Names and bodies: for generated stores (protocol look-alikes, CR/LF variations, multi-byte) served in every permitted encoding, getscript/listscripts of the real client are compared with the store and with the model client."),
+    "C01": _sv(sieve_checks.check_C01, "Coq proof (table interpreter implements the argument specification) over regenerated tables + model/parser correspondence + spec oracle",
+               "placeholder"),
+    "C02": _sv(sieve_checks.check_C02, "Coq proof (lexer progress, crash-freedom invariant, fuel bound) over regenerated tables + correspondence",
+               "placeholder"),
+    "C03": _sv(sieve_checks.check_C03, "Coq model of the tree construction + correspondence on trees + independent generic-grammar parser",
+               "placeholder"),
+    "C04": _sv(sieve_checks.check_C04, "Coq model of tosieve + correspondence on printed text + round trip on the parser",
+               "placeholder"),
+    "C07": _sv(sieve_checks.check_C07, "Coq proof (gate lemmas, loaded-extension monotonicity, frozen extension table obligation over regenerated tables) + correspondence + independent walk",
+               "placeholder"),
 }
